@@ -69,6 +69,10 @@ pub struct Cfg {
     /// and body but in no parameter; called at several instantiations fixed by an annotation, by a later
     /// use, or by being passed on
     pub result_only_generics: bool,
+    /// C07: finite polymorphic recursion — a generic function (pair of functions, impl method) that calls
+    /// ITSELF at another, fixed instantiation under a bool/counter guard, with trait dispatch inside so
+    /// that the instance matters observably (the set of instances is finite: the inner call is at a constant type)
+    pub finite_polyrec: bool,
     /// C06: matches with nested patterns (tuples, structs, enums, literals) over random data types
     pub nested_patterns: bool,
     /// C09: the right operand of `&&` / `||` is a "nearly trivial" shape around a printing call
@@ -125,6 +129,7 @@ impl<'a> Gen<'a> {
         let cfg = Cfg {
             overlapping_impls: cfg.overlapping_impls && cfg.rich_generics,
             result_only_generics: cfg.result_only_generics && cfg.rich_generics,
+            finite_polyrec: cfg.finite_polyrec && cfg.rich_generics,
             ..cfg
         };
         Gen { rng, cfg, structs: vec![], enums: vec![], fns: vec![], show_impls: vec![], cur_bounded: vec![], inject: None, site_count: BTreeMap::new(), injected: None, top_block: false, uid: 0, feats: BTreeMap::new() }
@@ -1438,6 +1443,19 @@ impl<'a> Gen<'a> {
                     let a = self.expr(u, scope, d, pre);
                     return Some(format!("vsingle({})", a));
                 }
+                T::I32 if self.cfg.finite_polyrec && self.rng.chance(1, 5) => {
+                    self.feat("g-finite-polyrec");
+                    let u = self.rich_ty(1);
+                    if self.rng.chance(1, 2) {
+                        let a = self.expr(&u, scope, d, pre);
+                        return Some(format!("sized({}, {})", a, if self.rng.chance(3, 4) { "true" } else { "false" }));
+                    }
+                    let bt = T::Bx(Box::new(u));
+                    let a = self.expr(&bt, scope, d, pre);
+                    let v = self.fresh("fp");
+                    write!(pre, "let {}: {} = {}; ", v, self.ty_text(&bt), a).unwrap();
+                    return Some(format!("{}.depth(true)", v));
+                }
                 T::I32 if self.cfg.overlapping_impls && self.rng.chance(1, 4) => {
                     self.feat("g-overlap-only-exact");
                     let bt = T::Bx(Box::new(T::I32));
@@ -1507,6 +1525,20 @@ impl<'a> Gen<'a> {
                                 self.ty_text(&T::Pr(Box::new(T::Str), Box::new(first))), v).unwrap();
                             format!("{}.a", w)
                         }
+                    });
+                }
+                T::Str if self.cfg.finite_polyrec && self.cfg.traits && self.rng.chance(1, 3) => {
+                    // the outer instance is at a Show type other than the one the function calls itself at
+                    let st = self.showable_ty();
+                    let st = if matches!(st, T::Param(_)) { T::Bool } else { st };
+                    let a = self.expr(&st, scope, d, pre);
+                    let tv = self.fresh("sv");
+                    write!(pre, "let {}: {} = {}; ", tv, self.ty_text(&st), a).unwrap();
+                    self.feat("g-finite-polyrec");
+                    return Some(match self.rng.below(3) {
+                        0 => format!("descr({}, {})", tv, if self.rng.chance(3, 4) { "true" } else { "false" }),
+                        1 => format!("countd({}, {})", tv, self.rng.below(3)),
+                        _ => format!("pa({}, {})", tv, self.rng.below(2)),
                     });
                 }
                 T::Str if self.cfg.traits => {
@@ -1739,6 +1771,22 @@ impl[A, B] Pr[A, B] {
 }
 "#,
         );
+        if self.cfg.finite_polyrec {
+            src.push_str(
+                r#"fn sized[T](x: T, again: bool) -> int32 { if again { 1 + sized((1, true), false) } else { 0 } }
+impl[T] Bx[T] { fn depth(self: Bx[T], again: bool) -> int32 { if again { let inner: Bx[bool] = Bx { v: true }; 1 + inner.depth(false) } else { 0 } } }
+"#,
+            );
+            if self.cfg.traits {
+                src.push_str(
+                    r#"fn descr[T: Show](x: T, again: bool) -> string { if again { x.show() + "/" + descr(7, false) } else { x.show() } }
+fn countd[T: Show](x: T, n: int32) -> string { if n > 0 { Show::show(x) + countd(true, n - 1) } else { Show::show(x) } }
+fn pa[T: Show](x: T, n: int32) -> string { if n == 0 { x.show() } else { pb(x, n - 1) } }
+fn pb[T: Show](x: T, n: int32) -> string { x.show() + ">" + pa(n, 0) }
+"#,
+                );
+            }
+        }
         if self.cfg.result_only_generics {
             src.push_str(
                 r#"fn nothing[T]() -> Opt[T] { Opt::Non }
@@ -2052,6 +2100,12 @@ fn show_lst[T: Show](l: Lst[T]) -> string { match l { Lst::Nil => ".", Lst::Cons
             let r = self.fresh("res");
             write!(body, "{}let {} = {}({}); ", pre, r, name, args.join(", ")).unwrap();
             self.show(&ret, &r, &mut body);
+        }
+        if self.cfg.finite_polyrec {
+            body.push_str("let _ = string_println(int32_to_string(sized(\"s\", true) + sized(1, true))); let fpb: Bx[int32] = Bx { v: 1 }; let _ = string_println(int32_to_string(fpb.depth(true))); ");
+            if self.cfg.traits {
+                body.push_str("let _ = string_println(descr(true, true) + \" \" + descr(3, true)); let _ = string_println(countd(5, 2) + \" \" + pa(false, 1)); ");
+            }
         }
         if self.cfg.result_only_generics {
             // every result-only generic at two instantiations, each with its own observable output
